@@ -288,9 +288,19 @@ Theorem T02g_scaling_linear : forall (f : R -> R) (x0 d N : R),
 Proof. exact scaling_linear. Qed.
 Print Assumptions T02g_scaling_linear.
 
-(* ------------------------------------------------------------------ T02c (partial) *)
-(* Symmetry of the Hessian of evalX: NOT proved for the trees D w' (D w e) vs D w (D w' e) (it is
-   Schwarz' theorem on the C2 fragment; a two-variable version of dom_open and of the continuity of
-   the second derivatives is missing).  What is proved: BHHH is symmetric (T02f); the symmetry of the
-   Hessian returned by the engine is checked entry by entry by the stream deriv_engine, together with
-   its entries (i, j), i <= j, against the enclosures of D b_j (D b_i e). *)
+(* ------------------------------------------------------------------ T02c *)
+(* The Hessian is symmetric: the trees D w' (D w e) and D w (D w' e) have the same value, for every tree
+   of the smooth fragment at every point of the open domain.  (Proved by induction on the tree with the
+   semantic derivation rules of Proofs/DerivP.v; the symmetry of the matrix returned by the engine is
+   checked entry by entry by the stream deriv_engine.) *)
+Theorem T02c_hessian_symmetric : forall Phi, Phi_ok Phi ->
+  forall (ws : list wrt) (en : env) (w w' : wrt) (x0 x0' : R) (e : expr),
+    In w ws -> In w' ws -> wrt_val en w = Some x0 -> wrt_val en w' = Some x0' -> dom Phi ws en e ->
+    evalX Phi (D w' (D w e)) en = evalX Phi (D w (D w' e)) en.
+Proof. exact hess_symmetric_at. Qed.
+Print Assumptions T02c_hessian_symmetric.
+
+(* the derivative tree does not depend on parameters the formula does not mention *)
+Theorem T02c_mentions_D : forall u v e, mentions u (D v e) = true -> mentions u e = true.
+Proof. exact mentions_D. Qed.
+Print Assumptions T02c_mentions_D.
